@@ -8,7 +8,7 @@ def run(ctx):
         cases = [c for c in cases if c["kind"] != "tr" or 1 <= c["o"] <= 7] 
         cases = [c for c in cases if c["kind"] != "note" or c["o"] in (0, 4)]
     ctx.exhaustive = True
-    ctx.bounds = {"quick": "35 names x octaves 1..7 x 35 shorthands x {up, down} + round trip; change_octave from octaves 0..4 by -6..3",
+    ctx.bounds = {"quick": "35 names x octaves 1..7 x 35 shorthands x {up, down} + round trip; change_octave (and octave_up/down) on 35 names from octaves 0..4 by -6..3",
                   "thorough": "octaves 0..9"}[ctx.tier]
     ctx.rule = "TLC-enumerated (Gen_C10); distinct = distinct (operation, arguments); non-trivial = name with an accidental or a shorthand with an accidental"
     ctx.nontrivial = lambda r: r["op"] == "lift" or (isinstance(r["in"].get("n"), list) and len(r["in"]["n"]) > 1) or len(r["in"].get("sh", [])) > 1 or "diff" in r["in"]
